@@ -165,7 +165,10 @@ func TestC20(t *testing.T) {
 			}
 		}
 	}
-	r.Require("populated_structs", "rejected_shapes", "rejected_arguments", "failing_field_cases", "bytes_fields_mutated", "secret_fields_followed_poll", "shared_secret_fields", "embedded_structs", "untagged_fields_checked", "second_applies")
+	if r.Only < 0 {
+		taggedEmbedded(r)
+	}
+	r.Require("tagged_embedded_fields", "populated_structs", "rejected_shapes", "rejected_arguments", "failing_field_cases", "bytes_fields_mutated", "secret_fields_followed_poll", "shared_secret_fields", "embedded_structs", "untagged_fields_checked", "second_applies")
 	r.Rule("struct types generated at run time: 1-8 fields in random order from {[]byte, string, setec.Secret, value/pointer BinaryUnmarshaler, ',json' struct/map/int} + unsupported {int, []string, *string, map[string]string, bool, empty tag name} + untagged fields of 5 kinds with sentinel contents, optionally one embedded predeclared struct; prefixes {'', a, a/b, dev/prog}; several fields may name the same secret; scripted failing fields (bad JSON, UnmarshalBinary error); via StoreConfig.Structs and via ParseFields+Apply. Distinct = (entry point, sorted set of field kinds, has failing field, prefix)")
 }
 
@@ -654,4 +657,153 @@ func keys(m map[string]bool) []string {
 	}
 	sort.Strings(out)
 	return out
+}
+
+// Shapes in which the tag sits on an embedded field itself (reflect.StructOf cannot build all of these).
+type withEmbJSON struct {
+	JS    `setec:"creds,json"`
+	Other string `setec:"other"`
+	Plain int
+}
+type withEmbBin struct {
+	Other  []byte `setec:"other"`
+	BinVal `setec:"bin"`
+}
+type withEmbBinPtr struct {
+	*BinVal `setec:"bin"`
+	Other   string `setec:"other"`
+}
+type withEmbSecret struct {
+	setec.Secret `setec:"sec"`
+	Other        string `setec:"other"`
+}
+type Text string
+type withEmbText struct {
+	Text  `setec:"txt"`
+	Other string `setec:"other"`
+}
+
+func taggedEmbedded(r *evid.Run) {
+	type tc struct {
+		name  string
+		mk    func() any
+		names []string
+		check func(v any) string
+	}
+	cases := []tc{
+		{"embedded json struct", func() any { return &withEmbJSON{Plain: 77} }, []string{"creds", "other"}, func(v any) string {
+			w := v.(*withEmbJSON)
+			if w.JS != (JS{A: 5, B: "five"}) || w.Other != "other-value" || w.Plain != 77 {
+				return fmt.Sprintf("%+v", *w)
+			}
+			return ""
+		}},
+		{"embedded binary unmarshaler", func() any { return &withEmbBin{} }, []string{"bin", "other"}, func(v any) string {
+			w := v.(*withEmbBin)
+			if string(w.BinVal.Got) != "bin-value" || string(w.Other) != "other-value" {
+				return fmt.Sprintf("%+v", *w)
+			}
+			return ""
+		}},
+		{"embedded pointer to binary unmarshaler", func() any { return &withEmbBinPtr{} }, []string{"bin", "other"}, func(v any) string {
+			w := v.(*withEmbBinPtr)
+			if w.BinVal == nil || string(w.BinVal.Got) != "bin-value" || w.Other != "other-value" {
+				return fmt.Sprintf("%+v", *w)
+			}
+			return ""
+		}},
+		{"embedded Secret", func() any { return &withEmbSecret{} }, []string{"sec", "other"}, func(v any) string {
+			w := v.(*withEmbSecret)
+			if w.Secret == nil || string(w.Secret.Get()) != "sec-value" || w.Other != "other-value" {
+				return fmt.Sprintf("Secret=%v Other=%q", w.Secret != nil, w.Other)
+			}
+			return ""
+		}},
+		{"embedded string type", func() any { return &withEmbText{} }, []string{"txt", "other"}, func(v any) string {
+			w := v.(*withEmbText)
+			if w.Text != "txt-value" || w.Other != "other-value" {
+				return fmt.Sprintf("%+v", *w)
+			}
+			return ""
+		}},
+	}
+	for ci, c := range cases {
+		for _, prefix := range []string{"", "p", "p/q"} {
+			for _, entry := range []string{"newstore", "apply"} {
+				r.Eval(1)
+				r.Count("tagged_embedded_fields", 1)
+				r.Distinct("tagged embedded: " + c.name + " via " + entry)
+				svc := fakesvc.New()
+				svc.Set("unrelated", 1, []byte("unrelated"))
+				svc.Set(path.Join(prefix, "creds"), 1, []byte(`{"a":5,"b":"five"}`))
+				svc.Set(path.Join(prefix, "bin"), 1, []byte("bin-value"))
+				svc.Set(path.Join(prefix, "sec"), 1, []byte("sec-value"))
+				svc.Set(path.Join(prefix, "txt"), 1, []byte("txt-value"))
+				svc.Set(path.Join(prefix, "other"), 1, []byte("other-value"))
+				want := map[string]bool{}
+				for _, n := range c.names {
+					want[path.Join(prefix, n)] = true
+				}
+				v := c.mk()
+				fail := func(key, msg string) {
+					r.Violation(key, -1, fmt.Sprintf("tagged embedded case %d (%s, prefix %q, %s): %s", ci, c.name, prefix, entry, msg), nil)
+				}
+				var st *setec.Store
+				var err error
+				pan := func() (p any) {
+					defer func() { p = recover() }()
+					if entry == "newstore" {
+						st, err = setec.NewStore(context.Background(), setec.StoreConfig{Client: svc, Structs: []setec.Struct{{Value: v, Prefix: prefix}},
+							Secrets: []string{"unrelated"}, PollInterval: -1, Logf: func(string, ...any) {}})
+						return nil
+					}
+					var f *setec.Fields
+					if f, err = setec.ParseFields(v, prefix); err != nil {
+						return nil
+					}
+					gm := map[string]bool{}
+					for _, g := range f.Secrets() {
+						gm[g] = true
+					}
+					if len(f.Secrets()) != len(want) || !reflect.DeepEqual(gm, want) {
+						fail("wrong-secret-names", fmt.Sprintf("Fields.Secrets() = %q, want %v", f.Secrets(), keys(want)))
+					}
+					if st, err = setec.NewStore(context.Background(), setec.StoreConfig{Client: svc, Secrets: []string{"unrelated"}, AllowLookup: true, PollInterval: -1, Logf: func(string, ...any) {}}); err != nil {
+						return nil
+					}
+					err = f.Apply(context.Background(), st)
+					return nil
+				}()
+				if st != nil {
+					defer st.Close()
+				}
+				if pan != nil {
+					fail("plumbing-panics", fmt.Sprint(pan))
+					continue
+				}
+				if err != nil {
+					// rejecting the shape up front is within the property (it is then an unsupported shape); a
+					// silent skip is not
+					if n := svc.NumRequests(); entry == "newstore" && n != 0 {
+						fail("rejection-not-upfront", fmt.Sprintf("rejected (%v) only after %d request(s)", err, n))
+					}
+					r.Count("tagged_embedded_rejected", 1)
+					continue
+				}
+				asked := map[string]bool{}
+				for _, q := range svc.Log() {
+					if q.Name != "unrelated" {
+						asked[q.Name] = true
+					}
+				}
+				if !reflect.DeepEqual(asked, want) {
+					fail("wrong-secrets-requested", fmt.Sprintf("secrets requested from the service: %v, want %v", keys(asked), keys(want)))
+					continue
+				}
+				if bad := c.check(v); bad != "" {
+					fail("field-value-wrong", "after construction the struct holds "+bad)
+				}
+			}
+		}
+	}
 }
